@@ -31,7 +31,7 @@ var allWriteOps = func(b, k, k2 S) []Op {
 func genC12() *rapid.Generator[Case] {
 	return rapid.Custom(func(t *rapid.T) Case {
 		p := mixedParams{Modes: []int{0, 0, 1, 2}, Segs: []int64{200, 333, 1024}, Buckets: []string{"b", "c"},
-			MinB: 1, MaxB: 2, MaxSteps: 8, MaxOps: 4, ReopenPct: 8, Structs: true, Fill: false, NoSPop: true}
+			MinB: 1, MaxB: 2, MaxSteps: 8, MaxOps: 4, ReopenPct: 8, MergePct: 8, Structs: true, Fill: false, NoSPop: true}
 		c := genMixedCase(p).Draw(t, "hist")
 		kind := rapid.SampledFrom([]string{"fnerr", "rollback", "oversize", "wfault", "wfault", "sfault", "readonly", "stale"}).Draw(t, "badkind")
 		if kind == "sfault" {
@@ -174,7 +174,7 @@ func runC12Once(c Case, st *Stats, fault *FaultSpec) (nw, ns int, fired bool, er
 		defer func() { t1.Close() }()
 	}
 	u := UniverseOf(c)
-	oo := obsFor(c.Cfg)
+	oo := obsForCase(c, nil)
 	inDoubt := false
 	compare := func(i int, what string) error {
 		om, ot := Observe(m, u, oo), Observe(tw, u, oo)
@@ -212,6 +212,17 @@ func runC12Once(c Case, st *Stats, fault *FaultSpec) (nw, ns int, fired bool, er
 				if !inDoubt && j < len(tt.Res) && tm.Res[j].String() != tt.Res[j].String() {
 					return nw, ns, fired, fmt.Errorf("step %d: call %s returned %s on main but %s on the twin", i, s.Ops[j], tm.Res[j], tt.Res[j])
 				}
+			}
+		case "merge":
+			// Merge on every database (it fails cleanly with fewer than 2 segments or in sparse mode): whatever the
+			// bad transaction left in the segments must not be brought to life by it
+			_ = m.Merge()
+			_ = tw.Merge()
+			if t1 != nil {
+				_ = t1.Merge()
+			}
+			if m.Dead || tw.Dead || (t1 != nil && t1.Dead) {
+				return nw, ns, fired, errSkip
 			}
 		case "reopen":
 			if err := m.Reopen(); err != nil {
@@ -307,6 +318,47 @@ func runC12Once(c Case, st *Stats, fault *FaultSpec) (nw, ns int, fired bool, er
 }
 
 func runC12(c Case, st *Stats) error {
+	hasMerge := false
+	for _, s := range c.Steps {
+		if s.K == "merge" {
+			hasMerge = true
+		}
+	}
+	if hasMerge && Known("c15-merge-list-duplication") {
+		// known finding: Merge duplicates list elements; main and twin may merge at different moments, so histories
+		// with Merge steps run without their list calls
+		dropped := false
+		var steps []Step
+		for _, s := range c.Steps {
+			if s.K == "tx" || s.K == "bad" {
+				ns := s
+				ns.Ops = nil
+				for _, op := range s.Ops {
+					if structOf(op.K) == "l" {
+						dropped = true
+						continue
+					}
+					ns.Ops = append(ns.Ops, op)
+				}
+				var after []Op
+				for _, op := range s.After {
+					if structOf(op.K) != "l" {
+						after = append(after, op)
+					}
+				}
+				ns.After = after
+				if len(ns.Ops) == 0 && s.K == "tx" {
+					continue
+				}
+				s = ns
+			}
+			steps = append(steps, s)
+		}
+		if dropped {
+			st.Exclude("c15-merge-list-duplication")
+			c.Steps = steps
+		}
+	}
 	kind := ""
 	wouldChange := false
 	for _, s := range c.Steps {
